@@ -11,6 +11,17 @@ E2 = "stateless model checking: exhaustive DFS of the choice tree of RNG answers
 E3 = "explicit-state BFS over operation histories of the real object, reference-model comparison in every state"
 
 CHECKS = {
+    "C10": dict(
+        built=True,
+        category="exploration",
+        engine="E1",
+        technique=E1 + "; all matrices over small integer/dyadic alphabets up to 4x4, permutation oracle",
+        text="Every matrix of the declared shapes/alphabets (all 3x3 over {-1,0,1,2}, all 2x2 and 1xk/kx1 over six values incl. "
+        "1/2 and negatives, all 2x3..4x2, all 0/1 4x4, rotating complete blocks of 3x4/4x3) is solved for min and max and compared "
+        "with the optimum over all injective assignments; matching shape, -1 convention and objective = sum are checked exactly.",
+        note="Trusts: itertools.permutations oracle. Bound: sizes <= 4x4 and the listed alphabets.",
+        ref="2/C10",
+    ),
     "C01": dict(
         built=True,
         category="exploration",
